@@ -647,6 +647,9 @@ func runC11(c *Ctx) {
 		"each decoded (a) by decoder.Decode on the matrix, (b) by AztecReader.Decode on a rendered image (scale, 4 rotations, quiet zone 2..4, hybrid/global binarizer), (c) with <= floor(ec/2) damaged codewords; " +
 		"correspondence: Decode on reference/damaged/random matrices, HighLevelDecode on random/mutated/structured bit vectors (empty, 1 bit, every FLG(n), every ECI digit count), read order vs reference layout for all 36 sizes; non-trivial = distinct op line / distinct oracle input"
 	sizes := c11AllSizes()
+	// fw.go seeds splitmix64 as seed*GOLDEN+c with increment GOLDEN, so the streams of seeds s and s+1
+	// are the same sequence shifted by one draw; forking through one mixed output decorrelates them
+	c.Rng = c.Rng.Fork()
 
 	// registered ECI values as the library reports them (run-time registry -> model parameter)
 	var regs []int
@@ -1081,6 +1084,27 @@ func runC11(c *Ctx) {
 				b = b[:r.Range(13, len(b))]
 			}
 			hld(b, fmt.Sprintf("flg%d", n))
+		}
+	}
+	// FLG(n) digit codes exhaustively: every 4-bit code in each of the last three digit positions
+	// (leading positions '0'), followed by one upper letter — the boundaries 2 and 11 of "decimal digit"
+	for n := 1; n <= 6; n++ {
+		k := n
+		if k > 3 {
+			k = 3
+		}
+		if !c.Thorough && n > 4 {
+			k = 2
+		}
+		for v := 0; v < 1<<uint(4*k); v++ {
+			b := append(bitsOf(0, 5), bitsOf(0, 5)...)
+			b = append(b, bitsOf(n, 3)...)
+			for i := 0; i < n-k; i++ {
+				b = append(b, bitsOf(2, 4)...)
+			}
+			b = append(b, bitsOf(v, 4*k)...)
+			b = append(b, bitsOf(2+v%26, 5)...)
+			hld(b, fmt.Sprintf("flgdigits%d", n))
 		}
 	}
 	// random vectors, random code sequences, mutated reference bit strings
